@@ -74,7 +74,7 @@ def run_case(case):
 def _cases(tier, seed):
     rng = random.Random(seed)
     corpus = vsgapi.corpus()
-    K = 3 if tier == "quick" else 12
+    K = 3 if tier == "quick" else 6
     cases = []
     for f in corpus:
         vs = [[[kind, rng.randrange(K)]] for kind in transforms.KINDS + transforms.EXTRA_KINDS]
@@ -93,10 +93,12 @@ def _cases(tier, seed):
     try:
         from lib import gen_vhdl
 
-        ng = 150 if tier == "quick" else 1500
-        G = 400 if tier == "quick" else 6000
-        for g in harness.sample(rng, range(G), ng):
+        ng = 150 if tier == "quick" else 600
+        G = 400 if tier == "quick" else 1000
+        for g in (range(G) if os.environ.get("VERIF_ALLK") else harness.sample(rng, range(G), ng)):
             vs = [[[kind, rng.randrange(K)]] for kind in transforms.KINDS + transforms.EXTRA_KINDS]
+            if os.environ.get("VERIF_ALLK"):
+                vs = [[[kind, k]] for kind in transforms.KINDS + transforms.EXTRA_KINDS for k in range(K)]
             cases.append({"gen": g, "variants": vs})
     except ImportError:
         pass
@@ -121,7 +123,11 @@ def judge(case, res, V, stats):
         one = dict(case)
         one["variants"] = [v["chain"]]
         if r == "rejected":
-            V.violation("rejected:" + kinds, one, v)
+            import re as _re
+
+            m = _re.search(r"while parsing (\w+) .*?Expecting : (\S+)", v.get("msg", ""))
+            what = ("%s:expecting-%s" % (m.group(1), m.group(2))) if m else "other"
+            V.violation("rejected:%s:%s" % (kinds, what), one, v)
         elif r == "crash":
             V.violation("crash:" + kinds, one, v)
         elif r == "roles_differ":
